@@ -317,4 +317,115 @@ theorem simple_table_roundtrip (isTsv : Bool) (field : String) (data : List (Int
     simp only [Function.comp, parseIntLit_intToStr, String.ofList_toList, Option.map_some,
       (renderS_ok p.2 (hmem p hp)).1]
 
+/-! ### `save_metadata` then `load_metadata` -/
+
+theorem setKV_new (k v : Num) : ∀ (d : List (Num × Num)), k ∉ d.map (·.1) → setKV d k v = d ++ [(k, v)]
+  | [], _ => rfl
+  | (k', v') :: t, h => by
+    have h1 : k' ≠ k := fun e => h (by simp [e])
+    have h2 : k ∉ t.map (·.1) := fun e => h (by simp [e])
+    simp [setKV, h1, setKV_new k v t h2]
+
+/-- the rows `read_tsv` returns for a two-column file -/
+def metaRows (field : String) (l : List (Int × SVal)) : List (List (String × Num)) :=
+  l.map fun p => [("cluster_id", .int p.1), (field, obsS p.2)]
+
+theorem foldl_metaRows (field : String) (hne : field ≠ "cluster_id") : ∀ (l : List (Int × SVal)) (d0 : List (Num × Num)),
+    ((d0.map (·.1)) ++ l.map (fun p => Num.int p.1)).Nodup →
+    (metaRows field l).foldl metaStep [(field, d0)] = [(field, d0 ++ l.map fun p => (Num.int p.1, obsS p.2))]
+  | [], d0, _ => by simp [metaRows]
+  | p :: l, d0, h => by
+    have hk : Num.int p.1 ∉ d0.map (·.1) := by
+      intro hm
+      rw [List.nodup_append] at h
+      exact h.2.2 _ hm _ (by simp) rfl
+    have h' : (((d0 ++ [(Num.int p.1, obsS p.2)]).map (·.1)) ++ l.map (fun p => Num.int p.1)).Nodup := by
+      simpa [List.map_append, List.append_assoc] using h
+    have ih := foldl_metaRows field hne l (d0 ++ [(Num.int p.1, obsS p.2)]) h'
+    have hb : (field != "cluster_id") = true := by simpa using hne
+    simp only [metaRows, List.map_cons, List.foldl_cons] at ih ⊢
+    simp only [metaStep, List.lookup_cons, beq_self_eq_true, List.foldl_cons, List.foldl_nil, bne_self_eq_false,
+      Bool.false_eq_true, if_false, hb, if_true, setNested, setKV_new _ _ d0 hk]
+    rw [ih]
+    simp
+
+theorem nodup_map_inj {α β : Type} (f : α → β) (hf : ∀ a b, f a = f b → a = b) : ∀ (l : List α), l.Nodup → (l.map f).Nodup
+  | [], _ => List.nodup_nil
+  | a :: t, h => by
+    rw [List.nodup_cons] at h
+    rw [List.map_cons, List.nodup_cons]
+    refine ⟨fun hm => ?_, nodup_map_inj f hf t h.2⟩
+    obtain ⟨b, hb, hfb⟩ := List.mem_map.mp hm
+    exact h.1 (hf b a hfb ▸ hb)
+
+theorem metadata_roundtrip (isTsv : Bool) (field : String) (data : List (Int × SVal))
+    (hfield : NoBreak field.toList) (hcsv : isTsv = false → '\t' ∉ field.toList) (hne : field ≠ "cluster_id")
+    (hvals : ∀ p ∈ data, SValOK p.2 ∧ renderS p.2 ≠ "") (hids : (data.map (·.1)).Nodup) :
+    loadMetadata (writeTsvSimple isTsv field data) =
+      some (if data = [] then [] else [(field, (sortById data).map fun p => (Num.int p.1, obsS p.2))]) := by
+  have hperm := sortById_perm data
+  have hmem : ∀ p ∈ sortById data, SValOK p.2 ∧ renderS p.2 ≠ "" := fun p hp => hvals p (hperm.mem_iff.mp hp)
+  have hrec := records_roundtrip isTsv ["cluster_id".toList, field.toList]
+    ((sortById data).map fun p => [(intToStr p.1).toList, (renderS p.2).toList])
+    (by
+      intro r hr f hf
+      rcases List.mem_cons.mp hr with rfl | hr
+      · simp only [List.mem_cons, List.not_mem_nil, or_false] at hf
+        rcases hf with rfl | rfl
+        · decide
+        · exact hfield
+      · obtain ⟨p, hp, rfl⟩ := List.mem_map.mp hr
+        simp only [List.mem_cons, List.not_mem_nil, or_false] at hf
+        rcases hf with rfl | rfl
+        · exact noBreak_intToStr p.1
+        · exact (renderS_ok p.2 (hmem p hp).1).2)
+    (fun _ => ⟨_, _, _, rfl⟩)
+    (by
+      intro h f hf
+      simp only [List.mem_cons, List.not_mem_nil, or_false] at hf
+      rcases hf with rfl | rfl
+      · decide
+      · exact hcsv h)
+  -- what `read_tsv` returns for this file
+  have hread : readTsvFile tryMakeNumber (writeTsvSimple isTsv field data) =
+      some (metaRows field (sortById data)) := by
+    unfold readTsvFile writeTsvSimple
+    simp only [hrec]
+    simp only [readTsv, metaRows, List.map_map, List.map_cons, List.map_nil, String.ofList_toList]
+    congr 1
+    apply List.map_congr_left
+    intro p hp
+    have h1 := intToStr_ne_empty p.1
+    have h2 := (hmem p hp).2
+    simp [Function.comp, String.ofList_toList, List.filter_cons, h1, h2, tryMakeNumber_intToStr,
+      (renderS_ok p.2 (hmem p hp).1).1]
+  unfold loadMetadata
+  rw [hread]
+  simp only [Option.map_some]
+  congr 1
+  cases hs : sortById data with
+  | nil =>
+    have : data = [] := by
+      have := hperm.length_eq; rw [hs] at this; exact List.eq_nil_of_length_eq_zero this.symm
+    simp [this, metaRows]
+  | cons p l =>
+    have hdne : data ≠ [] := by
+      intro h0; rw [h0] at hs; simp [sortById] at hs
+    rw [if_neg hdne]
+    have hnd : ((sortById data).map (·.1)).Nodup := (hperm.map _).nodup_iff.mpr hids
+    rw [hs] at hnd
+    have hnd' : (([] : List (Num × Num)).map (·.1) ++ (p :: l).map (fun p => Num.int p.1)).Nodup := by
+      simp only [List.map_nil, List.nil_append]
+      have : (p :: l).map (fun p => Num.int p.1) = ((p :: l).map (·.1)).map Num.int := by simp [List.map_map]
+      rw [this]
+      exact nodup_map_inj Num.int (fun a b h => by injection h) _ hnd
+    have hb : (field != "cluster_id") = true := by simpa using hne
+    have key := foldl_metaRows field hne l [(Num.int p.1, obsS p.2)] (by
+      simpa [List.map_cons] using hnd')
+    simp only [metaRows, List.map_cons, List.foldl_cons] at key ⊢
+    simp only [metaStep, List.lookup_cons, beq_self_eq_true, List.foldl_cons, List.foldl_nil, bne_self_eq_false,
+      Bool.false_eq_true, if_false, hb, if_true, setNested]
+    rw [key]
+    simp
+
 end PhyVerif.C18.Lemmas
